@@ -6,8 +6,10 @@
                                                  heights ≤ K are outside the sampling window
     peers n=N | insert lo=A hi=B | remove h=H | prune h=H | hp v=V | np v=V
     rmgranted i=I      the pruner removes the (I mod n)-th granted-and-still-stored height (ascending)
-    ans b=B k=K to=0|1 the network answers the (K mod m)-th pending share (sorted) of the
-                       (B mod n)-th block in progress (ascending height)
+    ans b=B k=K to=T   the network answers the (K mod m)-th pending share (sorted) of the
+                       (B mod n)-th block in progress (ascending height): T=0 the sample, T=1 a timeout,
+                       T=2 a P2p error other than a timeout, T=3 bytes that are not a Block, T=4 the block of a
+                       different CID, T=5 the right CID around a container that is not a sample
     ridx w=W           `random_indexes(W, MAX_SAMPLES_NEEDED)` alone
   every op carries `obs=`: the shares chosen for each block started during the op, in order,
   `h:r.c+r.c+…;h:…` (`-` = none); for `ridx` the returned set `r.c+…` (`_` = empty).
@@ -115,6 +117,8 @@ def grantedStored (s : State) : List Nat :=
 inductive Op where
   | ev (e : Ev)
   | noop
+  /-- an answer that is neither a sample nor a timeout -/
+  | badAns (h : Nat) (p : Share)
   /-- the harness has no such headers: the store is not touched -/
   | rejected
   | bad
@@ -148,6 +152,7 @@ def resolve (d : DState) (ws : List String) : Op :=
         | some f =>
           let pend := sortShares f.pending
           if pend.isEmpty then .noop
+          else if to ≥ 2 then .badAns h (pend.getD (k % pend.length) (0, 0))
           else .ev (.answer h (pend.getD (k % pend.length) (0, 0)) (to != 0))
     | _, _, _ => .bad
   | _ => .bad
@@ -180,13 +185,16 @@ def step (maxSamples thr : Nat) (d : DState) (line : String) : DState × String 
   | "reset" :: _ =>
     match doReset maxSamples thr ws with
     | some s => (s, "ok")
-    | none => (d, "bad-op")
+    | none => (d, "ok")   -- the bare `reset` the framework appends after a corpus file
   | "ridx" :: _ => (d, ridx maxSamples ws)
   | _ =>
     match resolve d ws with
     | .bad => (d, "bad-op")
     | .noop => (d, "noop")
     | .rejected => (d, "storeerr")
+    | .badAns h p =>
+      let (s', toks) := onBadAnswer d.s h p
+      ({ d with s := s' }, showToks toks)
     | .ev e =>
       let (s', toks) := Lumina.Model.Daser.step d.s e (obsOf ws)
       ({ d with s := s' }, showToks toks)
